@@ -79,6 +79,9 @@ class Ctx:
         from . import val as _V
         assumptions = assumptions + _V.trans_axioms()
         cross = self.tier == "thorough"
+        if os.environ.get("PVC_DUMP") and os.environ["PVC_DUMP"] in oid:
+            with open(os.path.join(OUT, "dump_%s.smt2" % oid.replace("/", "_").replace(":", "_")[-120:]), "w") as f_:
+                f_.write(solve._smt2(assumptions, goal))
         res = solve.prove(assumptions, goal, timeout_ms=timeout_ms, cross_check=cross)
         if cross and res["verdict"] == solve.Verdict.PROVED and kind != "cover":
             # vacuity guard (thorough tier): the assumptions of a proved obligation must be satisfiable
@@ -251,7 +254,11 @@ class Ctx:
             local = z3.Or(*inner) if len(inner) > 1 else inner[0]
             chosen = list(requires) + [reach] + ufacts
             for cand in (list(requires) + ufacts, list(requires) + [local] + ufacts):
-                r0 = solve.prove(cand, g, timeout_ms=3000, use_cvc5=False, rlimit=3000000, quick=True)
+                _t0 = time.time()
+                r0 = solve.prove(cand, g, use_cvc5=False, rlimit=400000, quick=True, hard_wall_ms=1500)
+                if os.environ.get("PVC_TRACE") and time.time() - _t0 > 2:
+                    print("  [trace] slow safety pre-attempt %s L%s %.1fs %s: %s" % (kind, ln, time.time() - _t0, r0["verdict"], str(g)[:300]),
+                          file=sys.stderr, flush=True)
                 if r0["verdict"] == solve.Verdict.PROVED:
                     chosen = cand
                     break
@@ -325,6 +332,24 @@ def load_known(prop):
 
 
 def _run_unit(args):
+    if os.environ.get("PVC_PROFILE"):
+        import cProfile
+        import pstats
+        import io
+        pr = cProfile.Profile()
+        pr.enable()
+        r = _run_unit_(args)
+        pr.disable()
+        if r["seconds"] > 10:
+            st = io.StringIO()
+            pstats.Stats(pr, stream=st).sort_stats("cumulative").print_stats(18)
+            with open(os.path.join(os.environ["PVC_PROFILE"], "prof_%s.txt" % r["unit"].replace("/", "_")), "w") as f:
+                f.write(st.getvalue())
+        return r
+    return _run_unit_(args)
+
+
+def _run_unit_(args):
     modname, idx, prop, tier, seed = args
     t0 = time.time()
     try:
@@ -369,11 +394,13 @@ def run_property(prop, tier="quick", seed=0, only=None, jobs=None):
             continue
         tasks.append((modname, idx, prop, tier, seed))
     jobs = jobs or int(os.environ.get("PVC_JOBS", "16"))
-    if len(tasks) <= 1 or jobs == 1:
+    if len(tasks) <= 1 and jobs == 1:
         results = [_run_unit(t) for t in tasks]
     else:
         ctxm = mp.get_context("fork")
-        with ctxm.Pool(min(jobs, len(tasks))) as pool:
+        # one fresh fork of the parent per unit: the solver context a unit sees (term ids, symbol counters) does not
+        # depend on which units ran before it in the same worker -- z3's heuristics are sensitive to that
+        with ctxm.Pool(min(jobs, len(tasks)), maxtasksperchild=1) as pool:
             results = pool.map(_run_unit, tasks, chunksize=1)
     return results
 
